@@ -3,6 +3,8 @@ import algebra
 
 
 def run(v, tier, seed, replay):
+    if replay:
+        return algebra.replay(v, replay, 512)
     phases = list(range(-3, 9)) + [1001, -4003]
     if tier == "quick":
         runs = [dict(dims=[2, 3, 4], ops=["evolve"], invs=["LawEvolve"], npat=2, phases=phases, nspec=10),
